@@ -771,6 +771,119 @@ def r7(k: Kit) -> None:
               'truncates the session without any error', fi.loc(fi.node))
 
 
+def r9(k: Kit) -> None:
+    """What the MAC computations are fed."""
+    from ..absint import evaluate, Obj, NotEvaluable
+    rep = k.rep
+    idx = k.idx
+    rep.rule('C01.R9', 'MAC input: _HMAC.sign hashes UInt32(seq) ‖ packet, '
+             '_UMAC.sign hands the primitive the whole packet and the nonce '
+             'UInt64(seq) (OpenSSH umac: 8-byte big-endian sequence number); '
+             'the nettle UMAC wrapper passes every byte of a message to '
+             'umac_update, for message lengths below, at and above its block '
+             'size (evaluated: the concatenation of what is handed over '
+             'equals the message)')
+    hs = k.func('mac._HMAC.sign')
+    okh = any(isinstance(x, ast.Assign) and
+              norm(x.value) == 'UInt32(seq) + packet'
+              for x in ast.walk(hs.node)) or any(
+                  norm(c.args[1]) == 'UInt32(seq) + packet'
+                  for c in ast.walk(hs.node) if isinstance(c, ast.Call) and
+                  is_call(c, 'new') and len(c.args) > 1)
+    rep.check(okh, 'C01.R9', key(hs, 'hmac input'),
+              'HMAC over UInt32(seq) ‖ packet',
+              'the HMAC input is no longer UInt32(seq) ‖ packet',
+              hs.loc(hs.node))
+    us = k.func('mac._UMAC.sign')
+    calls = [c for c in ast.walk(us.node) if isinstance(c, ast.Call) and
+             dotted(c.func) == 'self._umac_alg']
+    oku = len(calls) == 1 and len(calls[0].args) == 3 and \
+        dotted(calls[0].args[1]) == 'packet' and \
+        norm(calls[0].args[2]) == 'UInt64(seq)'
+    rep.check(oku, 'C01.R9', key(us, 'umac nonce'),
+              'UMAC over the whole packet with nonce UInt64(seq)',
+              'the UMAC nonce is not the 8-byte sequence number (or the '
+              'packet is not passed whole): every tag differs from the one '
+              'an OpenSSH peer computes from the second packet on',
+              us.loc(us.node))
+    mod = idx.module('crypto.umac')
+    upd = [x for x in ast.walk(mod.tree) if isinstance(x, ast.FunctionDef)
+           and x.name == 'update']
+    if len(upd) != 1:
+        rep.error('C01.R9', 'crypto.umac|update', 'wrapper update() not found')
+        return
+    body = [st for st in upd[0].body if not (
+        isinstance(st, ast.Expr) and isinstance(st.value, ast.Constant))]
+    bad = None
+    n = 0
+    for ln in (0, 1, 16, 1023, 1024, 1025, 2047, 2048, 2049, 3000, 5000):
+        n += 1
+        msg = bytes((i * 7 + 3) % 251 for i in range(ln))
+        fed = []
+
+        def on_call(nm, args, env, fed=fed):
+            if nm == '_update':
+                fed.append(args)
+                return None
+            if nm == 'ctypes.c_size_t':
+                return args[0]
+            return Obj('x')
+        try:
+            evaluate(idx, mod, body, {'self._ctx': Obj('CTX')},
+                     {'msg': msg}, on_call,
+                     atoms={})
+        except NotEvaluable as exc:
+            rep.error('C01.R9', 'crypto.umac|update not-evaluable', str(exc))
+            return
+        got = b''.join(a[2] for a in fed if len(a) > 2 and
+                       isinstance(a[2], bytes))
+        sizes_ok = all(len(a) > 2 and a[1] == len(a[2]) for a in fed)
+        if got != msg or not sizes_ok:
+            bad = bad or (f'a {ln}-byte message: {len(got)} bytes are handed '
+                          'to umac_update' + ('' if sizes_ok else
+                                              ' (size argument wrong)'))
+    rep.count('eval.umac_update_lengths', n)
+    rep.check(bad is None, 'C01.R9', 'crypto.umac|update feeds the whole '
+              'message', f'{n} message lengths: every byte reaches the MAC',
+              f'{bad}: the rest of the packet is not covered by the tag, so '
+              'bytes flipped there pass verification',
+              f'asyncssh/crypto/umac.py:{upd[0].lineno}')
+
+
+def r10(k: Kit) -> None:
+    """Authenticated data is delivered before the error that ended the
+    connection."""
+    rep = k.rep
+    rep.rule('C01.R10', 'stream readers take the connection error from the '
+             'receive buffer, where connection_lost queued it behind the '
+             'data already received; they never raise the stored '
+             'self._exception directly while data may still be buffered '
+             '("everything sent before the first altered byte is still '
+             'delivered")')
+    n = 0
+    for fi in k.idx.iter_funcs(['stream']):
+        if fi.name not in ('read', 'readuntil', 'readexactly', 'readline'):
+            continue
+        g = k.cfg(fi)
+        for r in g.nodes:
+            if r.kind != 'raise_stmt' or r.ast.exc is None:
+                continue
+            n += 1
+            if 'self._exception' not in names_read(r.ast.exc):
+                continue
+            w = g.guarded_by(r.id, lambda x: False if x.kind == 'atom' and
+                             dotted(x.ast) == 'recv_buf' else None)
+            rep.check(w is None, 'C01.R10',
+                      key(fi, 'error only after the buffered data'),
+                      'the stored error is raised only with an empty buffer',
+                      f'{fi.qual} raises self._exception before looking at '
+                      'the receive buffer: data that was authenticated and '
+                      'buffered before the tampered packet is never '
+                      'delivered to a reader that was behind',
+                      k.loc(fi, r), g.describe_path(w) if w else None)
+    rep.floor('C01.R10', 'raise sites in the stream readers', n, 3)
+
+
 def run(idx, rep, tier):
     k = Kit(idx, rep)
     rep.assumptions += NOT_DECIDED
@@ -780,6 +893,8 @@ def run(idx, rep, tier):
     r4(k)
     r5(k)
     r7(k)
+    r9(k)
+    r10(k)
     # R8: the two directions use different integrity / encryption keys and
     # each direction its own parameters: = C02.R2 (key schedule by data flow)
     from .c02 import r2 as c02r2
